@@ -143,9 +143,15 @@ type c42Pending struct {
 	labels     []string
 }
 
-const (
-	c42FirstWait  = 15 * time.Second
-	c42SecondWait = 45 * time.Second
+// Waiting budgets for "nothing happened to this stream". The first wait only
+// triggers a re-run of the same programme on a fresh router; only a silence
+// that reproduces under the second, longer budget is reported. Once a silence
+// has been confirmed in this process (the build under test demonstrably drops
+// streams) the budgets shrink so that rapid can minimise the example quickly.
+var (
+	c42FirstWait      = 3 * time.Second
+	c42SecondWait     = 20 * time.Second
+	c42SilenceConfirm bool
 )
 
 // c42Run executes the case against a fresh router and returns the index of a
@@ -310,7 +316,7 @@ func TestC42(t *testing.T) {
 	rec := ev.New(t, "C42")
 	rec.Rule("rapid-generated programmes over a fresh StreamRouter (chord transport, tunnel transport or both): registrations of virtual-node handlers (stream type, node id), node-wide chord handlers (type) and tunnel handlers (type) interleaved with incoming chord / tunnel streams (type, target id) fed through fake transports' AcceptStream; types from {0..5,-1,2^20}, ids from {0,1,2,3,2^32,2^32+1,2^48-1,2^63+1}; several streams in flight between registrations. Oracle (reference table kept by the harness): chord stream -> handler of (type,id) if registered, else node-wide handler of type, else Close; tunnel stream -> tunnel handler of type, else Close; exactly one of these happens once. Non-trivial: a competing registration exists for the stream (another handler of the same type in any table / another vnode), or the stream falls back to the node-wide handler, or it is closed although some handlers are registered. Each evaluation is one incoming stream; distinct = distinct (programme prefix, stream).")
 	rec.Assume("each (table, type, id) key is registered at most once per programme (the statement does not define which of two handlers for one key wins)",
-		"a stream that is neither handled nor closed within 15 s is re-run alone with a 45 s budget; only a reproduced silence is reported, otherwise the case is inconclusive")
+		"a stream that is neither handled nor closed within 3 s triggers a re-run of the programme on a fresh router with a 20 s budget; only a reproduced silence is reported, otherwise the case is inconclusive")
 
 	ev.RapidCheck(t, 300, 10000, func(rt *rapid.T) {
 		c := genC42Case().Draw(rt, "case")
@@ -331,11 +337,15 @@ func TestC42(t *testing.T) {
 			again.Ops = append([]c42Op(nil), c.Ops...)
 			u2, _, _ := c42Run(&again, c42SecondWait, nil)
 			if u2 < 0 {
-				rec.Inconclusive("stream unresolved within 15s but resolved on re-run")
+				rec.Inconclusive("stream unresolved within the first wait but resolved on re-run")
 				return
 			}
+			if !c42SilenceConfirm {
+				c42SilenceConfirm = true
+				c42FirstWait, c42SecondWait = time.Second, 3*time.Second
+			}
 			op := c.Ops[unresolved]
-			rec.Fail(rt, "stream-neither-handled-nor-closed", c, "op %d %s kind=%d id=%d (expected %s): neither a handler ran nor Close was called (twice, 15 s and 45 s)", unresolved, op.Op, op.Kind, op.ID, op.Want)
+			rec.Fail(rt, "stream-neither-handled-nor-closed", c, "op %d %s kind=%d id=%d (expected %s): neither a handler ran nor Close was called (in two runs, the second with a longer wait)", unresolved, op.Op, op.Kind, op.ID, op.Want)
 		}
 		if sig != "" {
 			rec.Fail(rt, sig, c, "%s", msg)
